@@ -149,20 +149,27 @@ def run(ck):
                    "hook verif_hooks::postprocess = codegen::postprocessing::postprocessing on a parsed token stream",
                    "harness/src/tree.rs canonicaliser (syn parse of the produced text -> tree) and props/c18.py renderer",
                    "modelled, not verified: syn's parser/printer; the visitor's traversal order (merge/sort a level, then nested modules) transcribed in C18/Model.v"]
+    model_ok = True
+    key_has_unsafety = True
     try:
         ranks, dflt, fields, order = tr.main(REPO, os.path.join(COQ, "gen", "C18_Table.v"))
+        ck.obligation("translator:postprocessing->C18_Table.v", True, "ranks %s default %d key %s order %s" % (ranks, dflt, fields, order))
+        if order != ["merge_extern_blocks", "sort_semantically"]:
+            raise tr.Shape("PASSES = %s, the model runs merge then sort" % order)
+        key_has_unsafety = "unsafety" in fields
+        if set(fields) - {"attrs", "abi", "unsafety"}:
+            raise tr.Shape("unmodelled merge key fields %s" % fields)
     except (tr.Shape, tr.LexError, OSError) as e:
-        raise TieBroken("translator:postprocessing", repr(e))
-    ck.obligation("translator:postprocessing->C18_Table.v", True, "ranks %s default %d key %s order %s" % (ranks, dflt, fields, order))
-    if order != ["merge_extern_blocks", "sort_semantically"]:
-        raise TieBroken("translator:pass-order", "PASSES = %s, the model runs merge then sort" % order)
-    key_has_unsafety = "unsafety" in fields
-    if set(fields) - {"attrs", "abi", "unsafety"}:
-        raise TieBroken("translator:merge-key", "unmodelled key fields %s" % fields)
-    vlib.coq_check_properties(ck, "theories/C18/Properties.v")
-    ok, out = vlib.coq_make(["theories/C18/Exec.vo", "gen/C18_Table.vo"])
-    if not ok:
-        raise TieBroken("coq-build:C18/Exec", out)
+        # the source no longer has the shape the model was transcribed from: the tie is broken; the property's own predicates are
+        # still evaluated on the implementation below, to look for a concrete failing input
+        model_ok = False
+        ck.obligation("translator:postprocessing->C18_Table.v", False, repr(e))
+        ck.broken("tie", "translator:postprocessing", repr(e))
+    if model_ok:
+        vlib.coq_check_properties(ck, "theories/C18/Properties.v")
+        ok, out = vlib.coq_make(["theories/C18/Exec.vo", "gen/C18_Table.vo"])
+        if not ok:
+            raise TieBroken("coq-build:C18/Exec", out)
     vlib.build_harness()
     g = Gen(ck.rng)
     trees = []
@@ -170,9 +177,10 @@ def run(ck):
     trees.append([("F", 0, False, [2]), ("P", 9, 1), ("F", 0, True, [4])])
     trees.append([("P", 6, 1), ("F", 0, True, [2]), ("P", 12, 3), ("F", 0, True, [4]), ("P", 6, 5)])
     trees.append([("M", 1, [("F", 1, True, []), ("F", 1, True, [2]), ("P", 14, 3)]), ("M", 4, None)])
-    for _ in range(ntrees):
+    for k in range(ntrees):
         g.next = 0
-        trees.append(g.level(ck.rng.choice([0, 1, 2, 3]), ck.rng.randrange(0, 15)))
+        # mostly small levels; every 10th tree has a crowded top level (sorting algorithms switch strategy with the slice length)
+        trees.append(g.level(ck.rng.choice([0, 1, 2, 3]), ck.rng.randrange(0, 15) if k % 10 else ck.rng.randrange(21, 70)))
     lines, meta = [], []
     for ti, t in enumerate(trees):
         src = render(t)
@@ -220,7 +228,7 @@ def run(ck):
     # ---- model vs implementation inside Coq (sharded)
     shard = 400
     bodies = []
-    for a in range(0, len(cases), shard):
+    for a in (range(0, len(cases), shard) if model_ok else []):
         bodies.append("""From Coq Require Import NArith List Bool.
 From BG Require Import C18.Model C18.Exec.
 From BGgen Require Import C18_Table.
@@ -238,8 +246,8 @@ Eval vm_compute in mismatches (rank_of rank_table default_rank) 0 cs.
         if not r or r[0] is None:
             raise TieBroken("coq-eval:C18/cases-parse", out[-2000:])
         mism += [si * shard + i for i in r[0]]
-    ck.coverage["traces_validated_against_impl"] = len(cases) - len(mism)
-    ck.obligation("correspondence:postprocessing()==C18/Model.passes", not mism, "%d (tree, merge, sort) cases, %d mismatches" % (len(cases), len(mism)))
+    ck.coverage["traces_validated_against_impl"] = (len(cases) - len(mism)) if model_ok else 0
+    ck.obligation("correspondence:postprocessing()==C18/Model.passes", model_ok and not mism, "%d (tree, merge, sort) cases, %d mismatches" % (len(cases), len(mism)))
     if mism:
         det = [{"source": render(trees[cases[i][0][0]]), "merge": cases[i][0][1], "sort": cases[i][0][2], "implementation_tree": repr(impl[cases[i][0]])} for i in mism[:5]]
         ck.broken("correspondence", "postprocessing() vs C18/Model.v", json.dumps(det, indent=1))
